@@ -274,6 +274,22 @@ PROPS = {
         assumptions=COMMON_ASSUMPTIONS + ["attribute and relationship name pools are disjoint (cross-kind collisions are not compared)",
                                           "a field dropped by SetType loses its stored values"],
     ),
+    "C20": dict(
+        regress="TestC20Regress",
+        subs=[dict(test="TestC20Shapes", quick=25000, thorough=200000)],
+        rule="Struct shapes built at run time with reflect.StructOf: an ID field in one of 10 forms (fine, absent, json tag other/absent, api tag "
+             "empty/absent, int, []byte, *string, named Id) and 0-8 further exported fields in random order, each a proper attribute (28 kinds), a "
+             "proper relationship (rel,t / rel,t,inv / rel,t,), or anything: one of 37 Go types (supported and float64, []int, map, struct, **string, "
+             "*[]string, Duration, []*string) with api tag among attr, rel, 'rel,', rel,t, rel,t,inv, rel,a,b,c, foo, '', 'attr,x', 'relation,t' or none, "
+             "json tag missing, unique, or drawn from a small pool with '' and id (duplicates frequent); plus hand-declared structs with a named field "
+             "type, an unexported tagged field and an embedded struct. Oracle: Check never panics; if it accepts (value) then for the struct by value "
+             "and by pointer Wrap, BuildType, Type.New, Wrapper.New/Copy, Set/Get of id and of every declared field with a generated value of the Go "
+             "field type and MarshalResource all succeed without panic, and BuildType / Wrapper.GetType / Attrs / Rels equal an independent derivation "
+             "from the tags and Go types; if it rejects, BuildType errors and Wrap panics. Non-trivial = shape with an ID field, >=2 tagged fields and an "
+             "unusual form (missing / empty / id / duplicate json tag, rel arity outside 2..3, unusual ID).",
+        assumptions=COMMON_ASSUMPTIONS + ["type names equal to 'attr' or starting with 'rel' are not generated for the ID's api tag",
+                                          "shapes are limited to what reflect.StructOf can express plus three hand-declared structs"],
+    ),
 }
 
 LEVEL_NOTE = ("Trusted base: Go toolchain and runtime, encoding/json, reflect, rapid v1.3.0, the harness' own generators and "
@@ -281,6 +297,11 @@ LEVEL_NOTE = ("Trusted base: Go toolchain and runtime, encoding/json, reflect, r
               "violation is not a proof.")
 
 MANIFEST_TEXT = {
+    "C20": dict(
+        technique="property-based testing (rapid) over run-time struct shapes (reflect.StructOf) with an independent tag-derivation oracle",
+        level_text="Exploration: the quantifier is over programs; the generator covers the tag and type forms listed in the property with reflect.StructOf and exercises every accepted shape through all listed operations, by value and by pointer.",
+        level_note=LEVEL_NOTE,
+    ),
     "C17": dict(
         technique="stateful property-based testing (rapid state machine, two implementations in lock-step against a map model) + generated pairs for the equality laws",
         level_text="Exploration: histories of well-typed Set calls are replayed on both implementations and compared with a model after every step; equality laws are checked on pairs differing in exactly one aspect.",
